@@ -604,6 +604,8 @@ def c11(res, tier, rng, wd):
     thorough = tier == "thorough"
     design_client(res, "C11", ["OneOutstanding"], ["OnlyMatchingCompletes", "TxAdvancesPerDequeue"], thorough,
                   neg=("notxcheck", "OnlyMatchingCompletes", False))
+    # the id arithmetic at its real size (Client_MC scales the id space down to 4)
+    vf.proof_run(res, "TxIdProof (TLAPS: successor, staleness by 1..65535, full circle at 65536)", "TxIdProof.tla")
     scs = e2.gen_c11(rng, thorough)
     run_e2(res, "C11", scs, wd, "c11")
     run_e2(res, "C11", e2.at_levels(scs, [[3, 2, 2], [0, 1, 0]] + ([[0, 2, 0], [1, 0, 1]] if thorough else [])), wd, "c11levels")
